@@ -185,6 +185,11 @@ impl Ctx {
             bag: vec![],
         }
     }
+    /// Remember the explicit case about to be executed (for panics and fatal signals).
+    pub fn set_case(&mut self, v: Value) {
+        crate::crash::set_case(&v.to_string());
+        self.current = Some(v);
+    }
     pub fn eval(&mut self) {
         if !self.frozen {
             self.evals += 1;
@@ -283,6 +288,7 @@ where
     let first: RefCell<Option<Violation>> = RefCell::new(None);
     let guarded_check = |c: &mut Ctx, v: &S::Value| -> Result<(), Violation> {
         c.current = None;
+        crate::crash::set_case(&serde_json::to_string(&format!("(raw generator value) {:?}", v)).unwrap_or_default());
         match catch_unwind(AssertUnwindSafe(|| check(c, v))) {
             Ok(r) => r,
             Err(_) => {
@@ -334,6 +340,7 @@ where
 /// Run one explicit case under the same panic policy as `pbt`.
 pub fn run_one(ctx: &mut Ctx, check: impl FnOnce(&mut Ctx) -> Result<(), Violation>) -> Result<(), Violation> {
     ctx.current = None;
+    crate::crash::set_case("\"(case not described yet)\"");
     match catch_unwind(AssertUnwindSafe(|| check(ctx))) {
         Ok(r) => r,
         Err(_) => {
@@ -369,6 +376,7 @@ pub fn run_shards(
                 std::thread::Builder::new()
                     .stack_size(64 << 20)
                     .spawn_scoped(s, move || {
+                        crate::crash::register(shard);
                         let mut ctx = Ctx::new(&cfg2.id, cfg2.tier, known);
                         let seedf = |stream: u64| shard_seed(&cfg2, shard, stream);
                         let r = match catch_unwind(AssertUnwindSafe(|| body(shard, &mut ctx, &seedf))) {
@@ -380,6 +388,7 @@ pub fn run_shards(
                                 case: Value::Null,
                             }),
                         };
+                        crate::crash::clear_case();
                         (ctx, r.err())
                     })
                     .unwrap(),
